@@ -1,6 +1,6 @@
 """C20 — Same behaviour in every feature configuration, up to documented differences."""
 import os, subprocess
-from verifkit.runner import Stream, HARNESS, ENV, Lock, log, cargo_extra_args, target_dir
+from verifkit.runner import Stream, HARNESS, ENV, Lock, log, cargo_extra_args, target_dir, cargo_lock
 from verifkit import gen, wiregen as W
 
 ID = "C20"
@@ -29,7 +29,7 @@ def cfg_bin(name):
 
 
 def prepare(seed, tier):
-    with Lock("cargo-cfg.lock"):
+    with cargo_lock("cargo-cfg.lock"):
         lock = os.path.join(CFGDIR, "Cargo.lock")
         if not os.path.exists(lock):
             import shutil; shutil.copy("/repo/Cargo.lock", lock)
